@@ -12,7 +12,7 @@ package timesafeguard
 //
 // Real time is involved, so the offsets keep a wide margin around the 2 s
 // limit: in-sync peers are within +-400 ms (a measurement would have to take
-// more than 1.6 s to refuse them; such a case is counted as inconclusive, not
+// more than 0.8 s to refuse them; such a case is counted as inconclusive, not
 // reported), offending peers are off by at least 4 s.
 
 import (
@@ -22,7 +22,6 @@ import (
 	"fmt"
 	"io"
 	"log"
-	"net"
 	"net/http"
 	"net/http/httptest"
 	"os"
@@ -78,15 +77,18 @@ func c19Server(p c19NetPeer, peers func() []string) *httptest.Server {
 	}))
 }
 
-func c19DeadAddr() string {
-	ln, err := net.Listen("tcp", "127.0.0.1:0")
-	if err != nil {
-		return "127.0.0.1:1"
-	}
-	addr := ln.Addr().String()
-	ln.Close()
-	return addr
+// c19DeadAddr is an address on which nothing listens (connection refused). It must not be a port
+// from the ephemeral range: the shards of this check run as parallel processes, and a port that was
+// free a moment ago may be handed to a status server of another shard (seen once: the "silent"
+// peer answered with the clock of somebody else's off-by-an-hour peer).
+func c19DeadAddr(k int) string {
+	return fmt.Sprintf("127.0.0.1:%d", 2+k%20)
 }
+
+// The check computes |Result-Start| + (End-Start) <= |offset| + 2*RTT for a peer. With in-sync
+// peers within 400ms a refusal is legitimate only when a round trip took more than 800ms; the whole
+// collection (all peers in parallel) taking at most 700ms rules that out.
+const c19Slow = 700 * time.Millisecond
 
 var c19CertSet bool
 
@@ -116,9 +118,9 @@ func c19NetExecute(c c19NetCase, dir string) (fail *vh.Failure, inconclusive boo
 		}
 	}()
 	offenders := 0
-	for _, p := range c.Peers {
+	for k, p := range c.Peers {
 		if p.Kind == "refused" {
-			addrs = append(addrs, c19DeadAddr())
+			addrs = append(addrs, c19DeadAddr(k))
 			continue
 		}
 		s := c19Server(p, nil)
@@ -168,13 +170,13 @@ func c19NetExecute(c c19NetCase, dir string) (fail *vh.Failure, inconclusive boo
 		return vh.Failf("net:accepted-unsound", "the node is allowed to join although %d answering peer(s) are off by >= 4s; peers %+v (join path %v, join target offset %dms)", offenders, c.Peers, c.Join, c.JoinOff), false
 	}
 	if offenders == 0 && err != nil {
-		if took > 1200*time.Millisecond {
+		if took > c19Slow {
 			// a measurement that slow can legitimately fail to prove |offset| < 2s
 			return nil, true
 		}
 		return vh.Failf("net:refused-although-in-sync", "refused although every answering peer is within 400ms and the whole check took %v: %v", took, err), false
 	}
-	if err != nil && took <= 1200*time.Millisecond {
+	if err != nil && took <= c19Slow {
 		// the offending peers are reported: one "Local: ..., Remote: ..." item each
 		if n := strings.Count(err.Error(), "Remote: "); n != offenders {
 			return vh.Failf("net:offenders-misreported", "%d answering peers are off by >= 4s, the error names %d: %v", offenders, n, err), false
